@@ -427,6 +427,7 @@ int cif_get_block(cif_tp *cif, const UChar *code, cif_block_tp **block) {
     } else {
         int result;
 
+        temp->code = NULL;
         temp->code_orig = NULL;
         temp->parent_id = -1; /* ensure initialized, but this is meaningful only for save frames */
         result = cif_normalize(code, -1, &(temp->code));
